@@ -1,9 +1,12 @@
-(** Functional model of dashCanonical / dashStart / Path.checkDash (path.go:1652-1745) as far as
-    Context.DrawPath (canvas.go:658-666) depends on them.  Exact in Q; [Equal(a,b)] is |a-b| <= Epsilon with
-    Epsilon = 10^-10 (the generators keep every compared quantity either exactly equal or >= 2^-10 apart, so
-    Go's binary64 value of 1e-10 decides identically).  The path length is a relational input. *)
-From Coq Require Import ZArith QArith Qabs Qround Qminmax List Bool.
+(** What Context.DrawPath (canvas.go:658-667) needs from path.go: [Equal] (util.go) and [Path.checkDash].
+    checkDash / dashStart / dashCanonical are modelled once, in Dash/DashPhase.v (property C05, tied to the Go code by
+    C05's own differential run and re-tied here through the styles recorded by the renderer); this file only
+    re-exports [check_dash] with the path length first.  [Equal(a,b)] is |a-b| <= Epsilon with Epsilon = 10^-10 (the
+    generators keep every compared quantity either exactly equal or >= 2^-10 apart, so Go's binary64 value of 1e-10
+    decides identically).  The path length is a relational input. *)
+From Coq Require Import ZArith QArith Qabs List Bool.
 From CV Require Import Base.Dy.
+From CV Require Dash.DashPhase.
 Import ListNotations.
 Open Scope Q_scope.
 
@@ -12,115 +15,9 @@ Definition eps : Q := 1 # 10000000000.
 Definition qequal (a b : Q) : bool := Qleb (Qabs (a - b)) eps.
 Definition qzero (a : Q) : bool := qequal a 0.
 
-(** "remove zeros except first and last": [rz prev rest] walks d[1..] with prev = d[i-1] *)
-Fixpoint rz (prev : Q) (rest : list Q) : list Q :=
-  match rest with
-  | [] => [prev]
-  | a :: rest' =>
-      match rest' with
-      | [] => [prev; a]
-      | b :: tl => if qzero a then rz (prev + b) tl else prev :: rz a rest'
-      end
-  end.
-
-Fixpoint add_last (d : list Q) (x : Q) : list Q :=
-  match d with
-  | [] => []
-  | [a] => [a + x]
-  | a :: tl => a :: add_last tl x
-  end.
-
-Definition add_first (d : list Q) (x : Q) : list Q :=
-  match d with [] => [] | a :: tl => (a + x) :: tl end.
-
-Fixpoint eq_halves (a b : list Q) : bool :=
-  match a, b with
-  | [], _ => true
-  | x :: a', y :: b' => qequal x y && eq_halves a' b'
-  | _ :: _, [] => false
-  end.
-
-(** "remove repeated patterns" *)
-Fixpoint unrepeat (fuel : nat) (d : list Q) : list Q :=
-  match fuel with
-  | O => d
-  | S f =>
-      let n := length d in
-      if Nat.even n then
-        let mid := Nat.div2 n in
-        if eq_halves (firstn mid d) (skipn mid d) then unrepeat f (firstn mid d) else d
-      else d
-  end.
-
-Definition qsum (d : list Q) : Q := fold_right Qplus 0 d.
-
-(** dashCanonical(offset, d) *)
-Definition dash_canonical (offset : Q) (d : list Q) : Q * list Q :=
-  match d with
-  | [] => (0, [])
-  | d0 :: rest =>
-      let d1 := rz d0 rest in
-      (* remove first zero *)
-      let step2 : option (Q * list Q) :=
-        match d1 with
-        | a :: tl =>
-            if qzero a then
-              match tl with
-              | b :: ((_ :: _) as tl') => Some (offset - b, add_last tl' b)
-              | _ => None
-              end
-            else Some (offset, d1)
-        | [] => Some (offset, d1)
-        end in
-      match step2 with
-      | None => (0, [0])
-      | Some (off2, d2) =>
-          (* remove last zero *)
-          let n := length d2 in
-          let lastz := qzero (last d2 1) in
-          let step3 : option (Q * list Q) :=
-            if lastz then
-              if (n <? 3)%nat then None
-              else let x := nth (n - 2) d2 0 in Some (off2 + x, add_first (firstn (n - 2) d2) x)
-            else Some (off2, d2) in
-          match step3 with
-          | None => (0, [])
-          | Some (off3, d3) =>
-              if existsb (fun x => Qltb x 0 || qzero x) d3 then (0, [0])
-              else (off3, unrepeat (length d3) d3)
-          end
-      end
-  end.
-
-(** dashStart(offset, d): index into d and (negative) position of its start *)
-Fixpoint dash_start_loop (fuel : nat) (d : list Q) (i : nat) (offset : Q) : nat * Q :=
-  match fuel with
-  | O => (i, offset)
-  | S f =>
-      let di := nth i d 0 in
-      if Qleb di offset then
-        let i' := S i in dash_start_loop f d (if (i' =? length d)%nat then O else i') (offset - di)
-      else (i, offset)
-  end.
-
-Definition qminl (d : list Q) : Q :=
-  match d with [] => 1 | a :: tl => fold_right Qmin a tl end.
-
-Definition dash_start (offset : Q) (d : list Q) : nat * Q :=
-  let dmin := qminl d in
-  let fuel := if Qleb dmin 0 then O else (Z.to_nat (Qfloor (offset / dmin)) + 2)%nat in
-  let '(i, off) := dash_start_loop fuel d O offset in
-  (i, if Qltb off 0 then - (qsum d + off) else - off).
-
-(** Path.checkDash(offset, d) for a path of the given length: (offset, dashes handed on, stroke kept); the
-    offset is the canonical one when a dash array is handed on and the caller's offset otherwise *)
+(** Path.checkDash(offset, d) for a path of the given length: (canonical offset, dashes handed on, stroke kept).
+    Current code: the pattern is doubled when its length is odd (as in Dash), the first dash/gap covers the whole path
+    iff [length <= dd[i] + pos], dashStart reduces a negative offset modulo the period, and the canonical offset is
+    returned in every case (also when no dash array is handed on, where it has no meaning). *)
 Definition check_dash (len offset : Q) (d : list Q) : Q * list Q * bool :=
-  let '(off, dc) := dash_canonical offset d in
-  match dc with
-  | [] => (offset, [], true)
-  | [x] => if Qeq_bool x 0 then (offset, [], false)
-           else let '(i, pos) := dash_start off dc in
-                if Qleb len (nth i dc 0 - pos) then (offset, [], Nat.even i) else (off, dc, true)
-  | _ => let '(i, pos) := dash_start off dc in
-         if Qleb len (nth i dc 0 - pos) then (offset, [], Nat.even i) else (off, dc, true)
-  end.
+  DashPhase.check_dash eps offset d len.
